@@ -1,11 +1,48 @@
 """Per-property run plans used by ./check (sizes live in the Go tests: ev.Pick(quick, thorough))."""
 
 def _h(pattern, quick=1, thorough=16, **kw):
+    if pattern.startswith("^Test") and pattern.endswith("_"):
+        pattern = "^(%s.*|TestRegress)$" % pattern[1:]
     d = {"name": pattern, "pattern": pattern, "shards": {"quick": quick, "thorough": thorough}}
     d.update(kw)
     return d
 
+_ASSUME = ["crypto/sha1, crypto/sha256, crypto/sha512 of the Go standard library are correct (the reference HMAC is written out over them)",
+           "the reference in /verif/h/ref is self-checked against RFC 4226 / 6238 / 6287 vectors at start-up"]
+
 CHECKS = {
+    "C02": {
+        "engine": "gotest", "moddir": "h", "runs": [_h("^TestC02_")],
+        "rule": "generated instants/periods/parameters against the reference HOTP at floor(unix/period); see coverage.parts[*].rule. distinct = distinct canonical JSON encodings of non-trivial cases",
+        "assumptions": _ASSUME + ["time.Time.Unix() is correct"],
+    },
+    "C03": {
+        "engine": "gotest", "moddir": "h", "runs": [_h("^TestC03_")],
+        "rule": "generated (counter, window, submitted string) cases against exact membership in the reference window code set; see coverage.parts[*].rule",
+        "assumptions": _ASSUME,
+    },
+    "C04": {
+        "engine": "gotest", "moddir": "h", "runs": [_h("^TestC04_")],
+        "rule": "generated (instant, period, skew, submitted string) cases against exact membership in the reference step-window code set, each call under a double watchdog; see coverage.parts[*].rule",
+        "assumptions": _ASSUME + ["a call that misses a 10 s and then a 20 s watchdog (normal cost ~25 us) is unbounded work, not machine load"],
+    },
+    "C05": {
+        "engine": "gotest", "moddir": "h", "runs": [_h("^TestC05_")],
+        "fuzz": [{"target": "FuzzC05", "seconds": 90}],
+        "rule": "generated suites (registered / parsed / hand-built) x secrets x admissible inputs against an independent RFC 6287 implementation, plus the unselected-field metamorphic relation; see coverage.parts[*].rule",
+        "assumptions": _ASSUME,
+    },
+    "C06": {
+        "engine": "gotest", "moddir": "h", "runs": [_h("^TestC06_")],
+        "rule": "generated (suite, secret, input, submitted string) cases incl. failing generations; oracle: equivalence with GenerateOCRA on the same arguments (whose value C05 pins to the RFC); see coverage.parts[*].rule",
+        "assumptions": _ASSUME + ["C06 is an equivalence between the two entry points; the absolute value is C05's subject"],
+    },
+    "C14": {
+        "engine": "gotest", "moddir": "h", "runs": [_h("^TestC14_")],
+        "rule": "complete enumeration of suite configurations and of field lengths 0..140 (single fields everywhere, pairs on the boundary set in quick and on the full square in thorough) against a predicate written from the statement; distinct = enumerated tuples, all distinct by construction",
+        "assumptions": ["challenge formats 0..6 and password hashes 0..3 are the configuration values in scope (values outside the enums are unclassified)",
+                        "admission depends on field lengths only, so contents are taken from 4 fixed patterns"],
+    },
     "C01": {
         "engine": "gotest", "moddir": "h",
         "runs": [_h("^TestC01_")],
